@@ -1,5 +1,6 @@
 import GoHeader.Oracle.Common
 import GoHeader.P2P.Subscriber
+import GoHeader.P2P.Lifecycle
 namespace GoHeader.Oracle
 open GoHeader GoHeader.P2P
 
@@ -64,7 +65,26 @@ def evalC11Sequence (ins outs : List String) : Oracle.Verdict :=
     if d != "same" then .prop "c11_delivered_value" s!"the header delivered after a rejected one is not the header that was sent ({d})" else .ok "sequence-afterreject"
   | _, _, _, _, _ => .bad "C11 sequence"
 
+def lifeOp? : String → Option Lifecycle.Op
+  | "start" => some .start | "stop" => some .stop | "subscribe" => some .subscribe | "cancel" => some .cancel
+  | _ => none
+
+/-- `kind=lifecycle`: a sequence of Start / Stop / Subscribe / Cancel calls on the real Subscriber; each call's
+    error/no-error against `P2P.Lifecycle.step`, and the gate probed at the end (theorem c11_gate_while_joined) -/
+def evalC11Lifecycle (ins outs : List String) : Oracle.Verdict :=
+  match (kv? ins "ops").bind (fun s => (s.splitOn ",").mapM lifeOp?), kv? outs "results", kv? outs "probe" with
+  | some ops, some rs, some probe =>
+    if probe == "CRASH" then .prop "c11_total" "reading the subscription panicked" else
+    if probe != "refused" then .prop "c11_accept_iff" s!"after {(kv? ins "ops").getD ""}: a header the verifier rejects was {probe}" else
+    let walk := ops.foldl (fun (acc : Lifecycle.St × List String) o =>
+      let r := Lifecycle.step true acc.1 o
+      (r.1, acc.2 ++ [if r.2 then "err" else "ok"])) (({} : Lifecycle.St), [])
+    let m := ",".intercalate walk.2
+    if m == rs then .ok s!"lifecycle-{ops.length}" else .corr "life-cycle results" m rs
+  | _, _, _ => .bad "C11 lifecycle"
+
 def evalC11 (ins outs : List String) : Oracle.Verdict :=
+  if kv? ins "kind" == some "lifecycle" then evalC11Lifecycle ins outs else
   if kv? ins "kind" == some "sequence" then evalC11Sequence ins outs else
   if kv? ins "kind" == some "gossip" then evalC11Gossip outs else
   if kv? ins "kind" == some "restart" then evalC11Restart ins outs else
